@@ -101,6 +101,98 @@ func runC01(c *Ctx) {
 			"expected exactly one BlockHeaders.WriteHeaders(headerWriteBatch...) fed by the guarded appends", c.ats(batchWrites)...)
 	})
 
+	c.rule("C01.V4", "one parent per header: the hash the new header's PrevBlock is compared with, the parent height and the parent header given to checkHeaderSanity all come from the same in-memory node, the tail of headerList fetched in that iteration (b.headerList.Back()): the comparison operand is written only with Back().Header.BlockHash(), never with a hash carried over from an earlier iteration", func() {
+		fn := c.fn(fnHandleHeaders)
+		isEqual := c.method(pChainhash, "Hash", "IsEqual")
+		prevBlock := c.field(pWire, "BlockHeader", "PrevBlock")
+		back := c.method("headerlist", "Chain", "Back")
+		blockHash := c.method(pWire, "BlockHeader", "BlockHash")
+		nodeHeader := c.field("headerlist", "Node", "Header")
+		nodeHeight := c.field("headerlist", "Node", "Height")
+		sanity := c.method("neutrino", "blockManager", "checkHeaderSanity")
+		connects := find(fn, anyArg(callTo(isEqual), fieldAddrOf(prevBlock)))
+		construct := c.nm(fn) + " | connection test, parent height and parent header use the same list tail"
+		if len(connects) != 1 {
+			c.fail(construct, c.P.Pos(fn.Pos()), fmt.Sprintf("%d connection test(s) prevHash.IsEqual(&blockHeader.PrevBlock), 1 tabled", len(connects)))
+			return
+		}
+		var bad []string
+		// the node: a Back() call in the same loop iteration
+		var node ssa.Value
+		fieldOfNode := func(v ssa.Value, f *types.Var) bool {
+			fa, ok := v.(*ssa.FieldAddr)
+			if !ok || ir.FieldOfAddr(fa) != f {
+				return false
+			}
+			call, ok := fa.X.(*ssa.Call)
+			if !ok || !callTo(back)(call) {
+				return false
+			}
+			if node == nil {
+				node = call
+			}
+			return node == ssa.Value(call)
+		}
+		args := ir.CallOf(connects[0]).Args
+		operand := args[0]
+		if fieldAddrOf(prevBlock)(args[0]) {
+			operand = args[1]
+		}
+		cell, ok := operand.(*ssa.Alloc)
+		if !ok {
+			bad = append(bad, "the compared hash is not a local hash variable")
+		} else {
+			sts := ir.StoresTo(cell)
+			if len(sts) == 0 {
+				bad = append(bad, "the compared hash is never assigned")
+			}
+			for _, st := range sts {
+				call, ok := st.Val.(*ssa.Call)
+				if !ok || !callTo(blockHash)(call) || !fieldOfNode(call.Call.Args[0], nodeHeader) {
+					bad = append(bad, "the hash compared with PrevBlock is assigned at "+c.at(st)+" from something other than headerList.Back().Header.BlockHash(): after a skipped (already known) header it is not the hash of the node that supplies the parent height")
+				}
+			}
+		}
+		// checkHeaderSanity(header, false, parentHeight, &parentHeader)
+		san := find(fn, withArg(callTo(sanity), 2, isConstBool(false)))
+		if len(san) != 1 {
+			bad = append(bad, fmt.Sprintf("%d checkHeaderSanity(.., false, ..) call(s), 1 tabled", len(san)))
+		}
+		for _, x := range san {
+			a := argsOf(x)
+			hld, ok := a[2].(*ssa.UnOp)
+			if !ok || !fieldOfNode(hld.X, nodeHeight) {
+				bad = append(bad, "parent height at "+c.at(x)+" is not headerList.Back().Height")
+			}
+			okHdr := false
+			if al, ok := a[3].(*ssa.Alloc); ok {
+				for _, st := range ir.StoresTo(al) {
+					if ld, ok := st.Val.(*ssa.UnOp); ok && fieldOfNode(ld.X, nodeHeader) {
+						okHdr = true
+					} else {
+						okHdr = false
+						break
+					}
+				}
+			} else if fieldOfNode(a[3], nodeHeader) {
+				okHdr = true
+			}
+			if !okHdr {
+				bad = append(bad, "parent header at "+c.at(x)+" is not headerList.Back().Header")
+			}
+		}
+		// the Back() call sits in the loop over msg.Headers (fetched per header)
+		if n, ok := node.(*ssa.Call); ok {
+			if ir.LoopHeaderOf(n.Block()) == nil || ir.LoopHeaderOf(n.Block()) != ir.LoopHeaderOf(connects[0].Block()) {
+				bad = append(bad, "headerList.Back() is not fetched in the same iteration as the connection test")
+			}
+		} else {
+			bad = append(bad, "no headerList.Back() node identified")
+		}
+		sort.Strings(bad)
+		c.verdict(len(bad) == 0, construct, c.at(connects[0]), "Back().Header.BlockHash() / Back().Height / Back().Header of one Back() call per iteration", join(bad), c.at(connects[0]))
+	})
+
 	c.rule("C01.G2", "checkHeaderSanity is a validator: it returns nil only if blockchain.CheckBlockHeaderContext=nil and blockchain.CheckBlockHeaderSanity=nil, both on its header parameter with BehaviorFlags zero (BFNone) and PowLimit/TimeSource from b.cfg", func() {
 		fn := c.fn("(*neutrino.blockManager).checkHeaderSanity")
 		ctxF := c.funcObj(pBlockchain, "CheckBlockHeaderContext")
